@@ -27,14 +27,24 @@ theorem sbc_after_sec (s : Cpu) (m : Byte) (h : s.f.c = true) : (s.sbc m).a = s.
 theorem adc_frame (s : Cpu) (m : Byte) : (s.adc m).mem = s.mem ∧ (s.adc m).x = s.x ∧ (s.adc m).y = s.y ∧ (s.adc m).sp = s.sp := by
   simp [Cpu.adc]
 
-/-- reading an atom through its operand gives its value -/
-theorem rd_opd (L : Layout) (s : Cpu) (a : Atom) : s.rd (opd L a) = some (val L s.mem a) := by
-  cases a <;> simp [opd, val, Cpu.rd, Cpu.ea]
+@[simp] theorem opd_const (L : Layout) (n : Byte) : opd L (.const n) = .imm n := rfl
+@[simp] theorem opd_var (L : Layout) (v : String) : opd L (.var v) = .mem (L v) := rfl
+@[simp] theorem opd_el_k (L : Layout) (t : String) (n : Nat) : opd L (.el t (.k n)) = .mem (L t + BitVec.ofNat 16 n) := rfl
+@[simp] theorem opd_el_x (L : Layout) (t : String) : opd L (.el t .x) = .memX (L t) false := rfl
+@[simp] theorem opd_el_y (L : Layout) (t : String) : opd L (.el t .y) = .memY (L t) false := rfl
 
-theorem identity_apply (op : BOp) (y : Atom) (L : Layout) (m : Mem) (x : Byte) (h : isIdentity op y = true) :
-    op.apply x (val L m y) = x := by
+/-- reading an atom through its operand gives its value -/
+theorem rd_opd (L : Layout) (s : Cpu) (a : Atom) : s.rd (opd L a) = some (val L s.mem s.x s.y a) := by
+  cases a with
+  | const n => simp [opd, val, Cpu.rd, Cpu.ea]
+  | var v => simp [opd, val, Cpu.rd, Cpu.ea]
+  | el t i => cases i <;> simp [opd, val, elAddr, Cpu.rd, Cpu.ea]
+
+theorem identity_apply (op : BOp) (y : Atom) (L : Layout) (m : Mem) (rx ry : Byte) (x : Byte) (h : isIdentity op y = true) :
+    op.apply x (val L m rx ry y) = x := by
   cases y with
   | var _ => simp [isIdentity] at h
+  | el _ _ => simp [isIdentity] at h
   | const n =>
     have e255 : (255#8 : BitVec 8) = BitVec.allOnes 8 := by decide
     cases op <;> simp [isIdentity] at h <;> subst h <;> simp [BOp.apply, val]
@@ -43,11 +53,11 @@ theorem identity_apply (op : BOp) (y : Atom) (L : Layout) (m : Mem) (x : Byte) (
 /-- `LDA x ; <op> y` leaves `op x y` in A and nothing else that matters changed -/
 theorem load_op (L : Layout) (s : Cpu) (op : BOp) (x y : Atom) :
     ∃ s', execSeq s ([(Mn.LDA, opd L x)] ++ (opInstrs op y).map (fun m => (m, if m == .CLC || m == .SEC then Opd.none else opd L y))) = some s' ∧
-      s'.a = op.apply (val L s.mem x) (val L s.mem y) ∧ s'.mem = s.mem ∧ s'.x = s.x ∧ s'.y = s.y ∧ s'.sp = s.sp ∧
+      s'.a = op.apply (val L s.mem s.x s.y x) (val L s.mem s.x s.y y) ∧ s'.mem = s.mem ∧ s'.x = s.x ∧ s'.y = s.y ∧ s'.sp = s.sp ∧
       s'.f.z = (s'.a == 0) := by
   by_cases hid : isIdentity op y = true
   · -- the operation is skipped; at most the carry set-up is emitted
-    have hv := identity_apply op y L s.mem (val L s.mem x) hid
+    have hv := identity_apply op y L s.mem s.x s.y (val L s.mem s.x s.y x) hid
     cases op <;> simp [opInstrs, carryOf, mainOf, hid, execSeq, Cpu.exec, rd_opd, hv]
   · have hid' : isIdentity op y = false := by simpa using hid
     cases op
@@ -74,8 +84,8 @@ theorem execSeq_append (s : Cpu) (xs ys : List (Mn × Opd)) :
     | none => simp
     | some s1 => simp [ih]
 
-theorem ordered_comm (op : BOp) (a b : Atom) (L : Layout) (m : Mem) :
-    op.apply (val L m (ordered op a b).1) (val L m (ordered op a b).2) = op.apply (val L m a) (val L m b) := by
+theorem ordered_comm (op : BOp) (a b : Atom) (L : Layout) (m : Mem) (x y : Byte) :
+    op.apply (val L m x y (ordered op a b).1) (val L m x y (ordered op a b).2) = op.apply (val L m x y a) (val L m x y b) := by
   unfold ordered
   split
   · rename_i h
@@ -84,7 +94,7 @@ theorem ordered_comm (op : BOp) (a b : Atom) (L : Layout) (m : Mem) :
 
 /-- every statement of the fragment, every layout, every machine state -/
 theorem gen_stmt_correct (L : Layout) (st : FStmt) (s : Cpu) :
-    ∃ s', execSeq s (genOps L st) = some s' ∧ s'.mem = spec L s.mem st ∧
+    ∃ s', execSeq s (genOps L st) = some s' ∧ s'.mem = spec L s.mem s.x s.y st ∧
       s'.x = s.x ∧ s'.y = s.y ∧ s'.sp = s.sp := by
   cases st with
   | asg v a =>
@@ -105,7 +115,7 @@ theorem gen_stmt_correct (L : Layout) (st : FStmt) (s : Cpu) :
 
 /-- any sequence of statements of the fragment -/
 theorem gen_block_correct (L : Layout) (sts : List FStmt) (s : Cpu) :
-    ∃ s', execSeq s (sts.flatMap (genOps L)) = some s' ∧ s'.mem = specBlock L s.mem sts ∧
+    ∃ s', execSeq s (sts.flatMap (genOps L)) = some s' ∧ s'.mem = specBlock L s.x s.y s.mem sts ∧
       s'.x = s.x ∧ s'.y = s.y ∧ s'.sp = s.sp := by
   induction sts generalizing s with
   | nil => exact ⟨s, by simp [execSeq], by simp [specBlock], rfl, rfl, rfl⟩
@@ -116,13 +126,13 @@ theorem gen_block_correct (L : Layout) (sts : List FStmt) (s : Cpu) :
     · simp only [List.flatMap_cons]
       rw [execSeq_append, h1]
       simpa using h2
-    · rw [hm2, hm1]; rfl
+    · rw [hm2, hm1, hx1, hy1]; rfl
 
 
 
 /-- the same with the fact the generator's flag belief rests on: Z describes the assigned variable -/
 theorem flat_correct (L : Layout) (st : FStmt) (s : Cpu) :
-    ∃ s', execSeq s (genOps L st) = some s' ∧ s'.mem = spec L s.mem st ∧
+    ∃ s', execSeq s (genOps L st) = some s' ∧ s'.mem = spec L s.mem s.x s.y st ∧
       s'.x = s.x ∧ s'.y = s.y ∧ s'.sp = s.sp ∧ s'.f.z = (s'.mem.read (L (target st)) == 0) := by
   cases st with
   | asg v a =>
